@@ -223,11 +223,15 @@ BiSpecMultModBytes(e) == LET viol == BiOddModulusViolations(e.c) IN
         THEN BiXBytes(BiPadBE(BnToBytesBE(e.w.r), Len(BiMinBytesBE(e.c.m)))) ELSE BiXBadW("quotient/remainder")
 \* the C helpers of the custom back-end (src/modexp.c): numbers are big-endian strings of e.n bytes; the modulus must be odd,
 \* the base (the terms) smaller than the modulus; the observation is the byte string, or exception class "error" for a non-zero return code
+\* ModulusOneOfTheCHelpers: src/mont.c documents "modulus is odd and at least 3" for the Montgomery context and refuses 1 with
+\* ERR_MODULUS; the Python layer (IntegerCustom) handles the modulus 1 itself, which IS judged (F14).  Silent here.
 BiSpecMontyPow(e) == IF BiIsZero(e.c) \/ ~BnIsOdd(e.c.m) THEN BiXExc({"error"})
+   ELSE IF BnCmp(e.c.m, <<1>>) = 0 THEN BiXSilent("modulus 1 is outside the documented domain of mont.c")
    ELSE IF BnCmp(e.a.m, e.c.m) >= 0 THEN BiXSilent("base >= modulus")
    ELSE IF BnIsNat(e.w.r) /\ BnIsPowMod(e.a.m, e.b.m, e.c.m, e.w.chain, e.w.r) THEN BiXBytes(BiPadBE(BnToBytesBE(e.w.r), e.n))
    ELSE BiXBadW("square-and-multiply chain")
 BiSpecMontyMul(e) == IF BiIsZero(e.c) \/ ~BnIsOdd(e.c.m) THEN BiXExc({"error"})
+   ELSE IF BnCmp(e.c.m, <<1>>) = 0 THEN BiXSilent("modulus 1 is outside the documented domain of mont.c")
    ELSE IF BnCmp(e.a.m, e.c.m) >= 0 \/ BnCmp(e.b.m, e.c.m) >= 0 THEN BiXSilent("term >= modulus")
    ELSE IF BnIsNat(e.w.q) /\ BnIsNat(e.w.r) /\ BnIsModWitness(BnMul(e.a.m, e.b.m), e.c.m, e.w.q, e.w.r) THEN BiXBytes(BiPadBE(BnToBytesBE(e.w.r), e.n))
    ELSE BiXBadW("quotient/remainder")
